@@ -411,6 +411,23 @@ fn fault_events(rng: &mut Rng, s: &[u8], allow_other: bool) -> String {
         i += n;
         gap(rng, &mut toks, false);
     }
+    // storms: many consecutive faults of one kind at one position (retry limits, poll counters)
+    let d = dict();
+    let storm: Option<(usize, &str)> = if rng.chance(1, 250) {
+        Some((*rng.pick(&[255usize, 256, 257, 300]), *rng.pick(&["I", "W"])))
+    } else if rng.chance(1, 4000) {
+        Some((*rng.pick(&[65_535usize, 65_536, 65_537, 70_000]), *rng.pick(&["W", "W", "I"])))
+    } else if !d.ints.is_empty() && rng.chance(1, 300) {
+        let n = *rng.pick(&d.ints);
+        Some((if rng.chance(1, 2) { n } else { n + 1 }, *rng.pick(&["W", "I"])))
+    } else {
+        None
+    };
+    if let Some((n, kind)) = storm {
+        let at = rng.below(toks.len() + 1);
+        let run: Vec<String> = (0..n).map(|_| kind.to_string()).collect();
+        toks.splice(at..at, run);
+    }
     if toks.is_empty() {
         toks.push("-".into());
     }
@@ -472,6 +489,22 @@ fn gen_c17(tier: &Tier, rng: &mut Rng, w: usize, nw: usize, out: &mut Vec<Case>)
         let f = tok(&spec::frame(&[1, 2, 3]));
         out.push(Case::new("noise-4gib", vec![format!("dec inf aa*4294967297,1b1b1b1b01,{} F", f)]).impl_only(true));
         out.push(Case::new("frame-4gib", vec![format!("dec inf 1b1b1b1b01010101,00*4294967300 R {} F", f)]).impl_only(true));
+    }
+    {
+        // long runs of would-block / interrupted results while part of a frame is pending: nothing may be lost
+        // (one case per worker: the list-based model needs seconds for 70 000 events)
+        let fa = spec::frame(&[0x11, 0x22, 0x33, 0x44, 0x55]);
+        let fb = spec::frame(&[9, 8, 7]);
+        let mut k = 0usize;
+        for n in [255usize, 256, 300, 65_535, 65_536, 70_000] {
+            for (ev, c) in [("W", 'N'), ("W", 'n'), ("I", 'n'), ("W", 'R')] {
+                if k % nw == w {
+                    let storm = vec![ev; n].join(" ");
+                    out.push(Case::new("storm", vec![format!("rdr io inf {} {} {} {} {}", calls(c, n + 8), tok(&fa[..13]), storm, tok(&fa[13..]), tok(&fb))]));
+                }
+                k += 1;
+            }
+        }
     }
     if w == 1 % nw {
         // unfinished transmissions of 2^16 bytes and more: counts inside a frame
